@@ -387,7 +387,7 @@ Definition decompose_chord (g : chord_group) (w : waiting) (q : list queued) (aq
   : outcome (list (coord * N * action)) :=
   let start_mask := opt_mask (cg_get_keys g (w_coord w)) in
   let '(order, dflt) := decomp_fold g w q start_mask [start_mask] (w_coord w) in
-  delay <- add16 (w_delay w) (w_ticks w) ;;
+  let delay := sat_add16 (w_delay w) (w_ticks w) in
   Ok (decomp_loop (S (length order)) g w q dflt order delay 0 (length order) aq).
 
 (* handle_chord: Some (waction, tap action, pq) *)
@@ -498,7 +498,7 @@ Definition remove_waiting (l : layout) (idx : Z) : layout :=
 Definition waiting_delay (w : waiting) : outcome N :=
   match w_cfg w with
   | WTapDance _ _ _ => Ok 0
-  | _ => add16 (w_delay w) (w_ticks w)
+  | _ => Ok (sat_add16 (w_delay w) (w_ticks w))
   end.
 
 Definition is_simple_tap (a : action) : bool :=
